@@ -161,6 +161,7 @@ package ipfix
 //@   requires rdr(d.reader) && d.reader.count == 0 && len(d.reader.base) <= 65535 && wellFormed(mem)
 //@   ensures (len(old(d.reader.base)) < 16 || be16(old(d.reader.base), 0) != 10) ==> result == nil && err != nil
 //@   ensures result != nil ==> mhdrAt(result.Header, old(d.reader.base), 0)
+//@   ensures result == nil ==> err != nil
 //@   ensures [records] result != nil ==> len(result.DataSets) <= len(old(d.reader.base))
 //@   modifies d.reader.data, d.reader.count, contents(mem)
 //@   loop 1
@@ -204,3 +205,46 @@ package ipfix
 //@   requires wellFormed(m)
 //@   ensures result1 == cacheHas(m, addr, id) && result == cacheGet(m, addr, id)
 //@   opt trustpost cacheHas/cacheGet are the abstract view of the cache; their relation to the shard maps is the subject of C04
+
+// ---- JSON encoding --------------------------------------------------------------------------------
+
+//@ func (*Message).JSONMarshal
+//@   requires b != nil
+//@   modifies b
+
+//@ func (*Message).encodeAgent
+//@   requires b != nil
+//@   modifies b
+
+//@ func (*Message).encodeHeader
+//@   requires b != nil
+//@   modifies b
+
+//@ func (*Message).encodeDataSet
+//@   requires b != nil
+//@   modifies b
+//@   loop 1
+//@     invariant b != nil
+//@   loop 2
+//@     invariant b != nil && 0 <= i && i < len(m.DataSets)
+
+//@ func (*Message).encodeDataSetFlat
+//@   requires b != nil
+//@   modifies b
+//@   loop 1
+//@     invariant b != nil
+//@   loop 2
+//@     invariant b != nil && 0 <= i && i < len(m.DataSets)
+
+//@ func (*Message).writeValue
+//@   requires b != nil && 0 <= i && i < len(m.DataSets) && 0 <= j && j < len(m.DataSets[i])
+//@   modifies b
+
+// a cache that decoding can use without crashing, whatever file content it was loaded from (C11, C01)
+//@ func GetCache
+//@   opt replayprobe result.retrieve(300, net.IP{10, 0, 0, 1})
+//@   opt replayimports net
+//@   ensures wellFormed(result)
+//@   loop 1
+//@     invariant 0 <= i && i <= 32 && len(m) == 32 && (forall j :: m.off <= j && j < m.off + i ==> m.arr[j] != nil && !m.arr[j].Templates.isnil)
+//@     decreases 32 - i
